@@ -269,7 +269,9 @@ pub fn check_tokens(toks: &[Token], r: &Rendered, p: &Prog) -> Result<(), String
 
 pub fn first_diff(got: &[PNode], exp: &[PNode]) -> Option<String> {
     for (i, (g, e)) in got.iter().zip(exp.iter()).enumerate() {
-        if g != e {
+        // mandated attribute "?": the specification gives no value (character literals outside ASCII are not SPL)
+        let same = if e.attr == "?" { g.kind == e.kind && g.depth == e.depth && g.start == e.start && g.end == e.end } else { g == e };
+        if !same {
             let what = if g.kind != e.kind || g.attr != e.attr || g.depth != e.depth { "structure" } else { "range" };
             return Some(format!("{what}: node {i}: got {}({}) {}..{} depth {}, mandated {}({}) {}..{} depth {}",
                                 g.kind, g.attr, g.start, g.end, g.depth, e.kind, e.attr, e.start, e.end, e.depth));
